@@ -273,15 +273,12 @@ func (s *session) AddConnStateChangeHandler(handlers ...StateChangeHandler) {
 //     select { case ch <- msg: case <-s.rt.Done(): return }
 //     so a full/stalled channel never blocks the fan-out past connection teardown (J5).
 //
-// Returns immediately if there are no handlers or if the generation is already torn down.
+// A message that reaches this point was read completely from the wire (and, on SECS-I, every one of
+// its blocks has already been ACKed to the peer, whose send therefore returns success), so the func
+// handlers ALWAYS receive it — even when teardown of the generation has begun in the meantime:
+// dropping it here would lose a message the peer was told had arrived. Only the channel handlers,
+// which can block, keep the rt.Done() escape (J5).
 func (s *session) recvDataMsg(msg *DataMessage) {
-	// Fast-path exit if the generation is already torn down.
-	select {
-	case <-s.rt.Done():
-		return
-	default:
-	}
-
 	s.mu.RLock()
 	handlers := s.handlers
 	chans := s.chans
